@@ -71,6 +71,7 @@ class _patched_uniform:
 
 
 _DICT_MODEL = gs.DictInterface(lambda s: s["lp"])
+ID_LEAF, KEY_LEAF = [20_000_001, 7], [4_000_000_001, 3]
 
 
 def _mh():
@@ -80,7 +81,9 @@ def _mh():
 
 
 def _run_dict(key, u, cur, prop, corr):
-    state = {"x": jnp.float32(1.0), "lp": cur, "aux": jnp.array([3.0, -0.0], dtype=jnp.float32)}
+    # (a mixed-dtype state: integers that no float32 can represent, raw PRNG key words)
+    state = {"x": jnp.float32(1.0), "lp": cur, "aux": jnp.array([3.0, -0.0], dtype=jnp.float32), "id": jnp.array(ID_LEAF, dtype=jnp.int32),
+             "rawkey": jnp.array(KEY_LEAF, dtype=jnp.uint32)}
     proposal = {"x": jnp.float32(2.0), "lp": prop}
     _Holder.u = u
     info, out = _mh()(key, _DICT_MODEL, proposal, state, corr)
@@ -149,8 +152,9 @@ def judge(case, code, acc, moved, out, stub_used=True, use_u=True):
     # --- what happened to the state
     x_out = float(out["x"])
     accepted = x_out == 2.0
-    st_in = {"x": F32(1.0), "lp": cur, "aux": np.array([3.0, -0.0], dtype=F32)}
-    st_prop = {"x": F32(2.0), "lp": prop, "aux": np.array([3.0, -0.0], dtype=F32)}
+    rest = {"aux": np.array([3.0, -0.0], dtype=F32), "id": np.array(ID_LEAF, dtype=np.int32), "rawkey": np.array(KEY_LEAF, dtype=np.uint32)}
+    st_in = dict({"x": F32(1.0), "lp": cur}, **rest)
+    st_prop = dict({"x": F32(2.0), "lp": prop}, **rest)
     if accepted:
         require(tree_equal_bits(out, st_prop), "accepted-state-not-proposal", det)
     else:
